@@ -138,6 +138,7 @@ func (a *Actor) ProcessRun() (rr error) {
 	}
 
 	for {
+		lib.VerifPoint("actor.pick", a.Process)
 		if a.State() != gen.ProcessStateRunning {
 			// process was killed by the node.
 			return gen.TerminateReasonKill
